@@ -1,10 +1,10 @@
 """harnesses - one module per property family; PLAN maps a property to the harnesses that decide it."""
-from . import k04, k11, k12, k13, k14, k16, k20, lfam  # noqa: F401
+from . import k04, k11, k12, k13, k14, k16, k17, k20, lfam  # noqa: F401
 
 PLAN = {
     "C01": ["L01"],
     "C02": ["L02"],
-    "C03": ["K03", "L03"],
+    "C03": ["K03", "K12a", "L03"],
     "C04": ["K04a", "K16", "L04"],
     "C05": ["L05"],
     "C06": ["K06", "L06"],
@@ -12,12 +12,14 @@ PLAN = {
     "C08": ["L08"],
     "C09": ["L09"],
     "C10": ["L10"],
+    "C17": ["K17", "K17b"],
     "C18": ["L18"],
     "C19": ["L19"],
     "C11": ["K11a", "K11b"],
     "C12": ["K12a", "K12b", "K12d"],
     "C13": ["K13a", "K13b", "K14b"],
     "C14": ["K14a", "K14b"],
+    "C15": ["K14b", "L15"],
     "C16": ["K16"],
     "C20": ["K20a", "K20b"],
 }
